@@ -84,7 +84,7 @@ def updateDegrees (g : Graph) : Graph := updateDegreesWith g g.ekeys
 
 /-- enough fuel for the explicit-stack DFS: every iteration either pops an item or expands a
 node that was never expanded before; pushes are bounded by the total number of edges. -/
-def edgeCount (g : Graph) : Nat := (g.nodes.map (fun k => (g.edges k).length)).foldl (· + ·) 0
+def edgeCount (g : Graph) : Nat := (g.nodes.map (fun k => (g.edges k).length)).sum
 
 def dfsFuel (g : Graph) : Nat := 2 * edgeCount g + 2 * g.nodes.length + 4
 
@@ -225,17 +225,19 @@ def detectLoop (g : Graph) : List Key → Graph × CycleRes
     | (g1, .ok) => detectLoop g1 rest
     | r => r
 
+def resetCycleCache (g : Graph) : Graph := { g with cycleTrue := [] }
+def setCycleClean (g : Graph) : Graph := { g with cycleDirty := false }
+
 /-- `DetectCycles` (graph.go:414-456) -/
 def detectCyclesWith (g : Graph) (eorder norder : List Key) : Graph × CycleRes :=
   let g1 := updateDegreesWith g eorder
-  if !g1.cycleDirty then
+  if g1.cycleDirty then
+    let r := detectLoop (resetCycleCache g1) norder
+    (setCycleClean r.1, r.2)
+  else
     match g1.cycleTrue with
     | k :: _ => (g1, .cycle k (findCyclePath g1 k))
     | [] => (g1, .ok)
-  else
-    let g2 := { g1 with cycleTrue := [] }
-    let (g3, r) := detectLoop g2 norder
-    ({ g3 with cycleDirty := false }, r)
 
 def detectCycles (g : Graph) : Graph × CycleRes := detectCyclesWith g g.ekeys g.nodes
 
